@@ -39,8 +39,8 @@ VARIABLES
 subvars == <<sgen, subd, unsub, tag, wire, direct>>
 allvars == <<vars, subvars>>
 
-base  == <<cfg, cur, w, tg, infl, nadd, nend, ref>>
-base2 == <<cfg, cur, w, tg, infl, nend, ref>>
+base  == <<cfg, cur, w, tg, infl, nadd, nend, pclosed, ref>>
+base2 == <<cfg, cur, w, tg, infl, nend, pclosed, ref>>
 Mark(a) == step' = [act |-> a, fl |-> FALSE, gen |-> 0, orphan |-> FALSE, item |-> NoItem, flushed |-> <<>>]
 Flushed == wire' = wire \o Flat(step'.flushed)
 
@@ -64,6 +64,8 @@ SGet(it) ==                       \* ... the same in two steps: getWriter now, w
   /\ tag' = Append(tag, sgen)
   /\ UNCHANGED <<sgen, subd, unsub, wire, direct>>
 SWAdd == SubSplit /\ WAdd(1) /\ Flushed /\ UNCHANGED <<sgen, subd, unsub, tag, direct>>
+\* refused by a writer that unsubscribe closed meanwhile: perChannelWriter.Add takes the current writer again
+SRetry == SubSplit /\ Retry(1) /\ UNCHANGED subvars
 
 STimer(x) == TimerFire(x) /\ Flushed /\ UNCHANGED <<sgen, subd, unsub, tag, direct>>
 
@@ -75,13 +77,14 @@ UnsubBegin ==
 
 Resub ==
   /\ ~subd /\ sgen < MaxGen
+  /\ infl[1].g = 0                   \* hub.addSub takes the shard lock an in-flight broadcast holds
   /\ sgen' = sgen + 1 /\ subd' = TRUE
   /\ UNCHANGED base /\ Mark("Resub")
   /\ UNCHANGED <<unsub, tag, wire, direct>>
 
 \* after removeSubscription (which waits for in-flight broadcasts: hub shard lock); then the reply / push of `unsub`
 UnsubEnd ==
-  /\ unsub # 0 /\ infl[1].g = 0
+  /\ unsub # 0 /\ infl[1].g = 0        \* hub.removeSub waits for in-flight broadcasts
   /\ unsub' = 0
   /\ IF ~subd THEN DelWriter(FALSE) ELSE (UNCHANGED base /\ Mark("UnsubEnd"))
   /\ UNCHANGED <<sgen, subd, tag, wire, direct>>
@@ -89,7 +92,7 @@ UnsubEnd ==
 SwitchLatest ==
   /\ CfgSwitch = "latest" /\ cfg.latest
   /\ cfg' = [cfg EXCEPT !.latest = FALSE]
-  /\ UNCHANGED <<cur, w, tg, infl, nadd, nend, ref>> /\ Mark("SwitchLatestOff")
+  /\ UNCHANGED <<cur, w, tg, infl, nadd, nend, pclosed, ref>> /\ Mark("SwitchLatestOff")
   /\ UNCHANGED subvars
 SwitchDirect ==
   /\ CfgSwitch = "direct" /\ ~direct
@@ -99,7 +102,7 @@ SwitchDirect ==
 
 SubNext ==
   \/ \E it \in Items(nadd + 1) : SAdd(it) \/ SGet(it)
-  \/ SWAdd
+  \/ SWAdd \/ SRetry
   \/ \E x \in tg : STimer(x)
   \/ UnsubBegin \/ Resub \/ UnsubEnd
   \/ SwitchLatest \/ SwitchDirect
@@ -122,5 +125,5 @@ WireOrdered == \A i, j \in 1..Len(wire) : i < j =>
                  \/ wire[i].id < wire[j].id
                  \/ (cfg.latest /\ ~IsPub(wire[i]) /\ IsPub(wire[j]))
 
-SubView == <<cfg, cur, w, tg, infl, nadd, nend, ref, sgen, subd, unsub, tag, wire, direct>>
+SubView == <<cfg, cur, w, tg, infl, nadd, nend, pclosed, ref, sgen, subd, unsub, tag, wire, direct>>
 =============================================================================
